@@ -499,8 +499,13 @@ pub fn place_cwd(rng: &mut Rng, world: &mut World, analysed: &str, place: CwdPla
         CwdPlace::Equal => Some(".".to_string()),
         CwdPlace::Child => Some("..".to_string()),
     };
-    match rel {
+    let mut spelled = match rel {
         Some(r) if rng.chance(2, 3) => r,
         _ => analysed.to_string(),
+    };
+    // a trailing separator is a common way to spell a directory
+    if rng.chance(1, 5) {
+        spelled.push('/');
     }
+    spelled
 }
